@@ -21,7 +21,8 @@ class Cz:
         self.c = store.Concretiser(rnd, scales=(2, 10, 1000, 1000, 2010, 4020, 4060, 8120, 16060, 21600000))   # the last: 6 h per tick, merged events pass 24 h
 
     def ev(self, e, Event):
-        return Event(timestamp=self.c.dt(e["ts"]), duration=self.c.td(e["dur"]), data={"v": e["d"]})
+        data = {"v": e["d"]} if e["d"] != "c" else {"v": "a", "extra": [1]}      # "c" equals "a" except for one more key
+        return Event(timestamp=self.c.dt(e["ts"]), duration=self.c.td(e["dur"]), data=data)
 
     def pul(self, p2):          # pulsetime in half-ticks -> seconds
         return p2 * self.c.scale / 2000.0
@@ -31,7 +32,7 @@ class Cz:
         q1, r1 = divmod(e.timestamp - self.c.base, half)
         q2, r2 = divmod(e.duration, half)
         z = timedelta(0)
-        out = {"ts": q1 if r1 == z else -99999, "dur": q2 if r2 == z else -99999, "d": str(e.data.get("v", "?"))}
+        out = {"ts": q1 if r1 == z else -99999, "dur": q2 if r2 == z else -99999, "d": "c" if "extra" in e.data else str(e.data.get("v", "?"))}
         if with_id:
             out["id"] = e.id if isinstance(e.id, int) else -2
         return out
@@ -46,7 +47,7 @@ def merge_cases(quick):
     ts = [0, 1, 2, 3]
     du = [-1, 0, 1, 2]
     for t1, d1, t2, d2 in itertools.product(ts, du, ts, du):
-        for da, db in (("a", "a"), ("a", "b")):
+        for da, db in (("a", "a"), ("a", "b"), ("a", "c"), ("c", "a")):
             for p2 in (0, 1, 2, 4):
                 yield {"ts": t1, "dur": d1, "d": da}, {"ts": t2, "dur": d2, "d": db}, p2
 
@@ -54,7 +55,7 @@ def merge_cases(quick):
 def list_cases(rnd, n, maxlen=4):
     for _ in range(n):
         k = rnd.randint(0, maxlen)
-        yield [{"ts": rnd.randrange(0, 5), "dur": rnd.choice([-1, 0, 0, 1, 2, 3]), "d": rnd.choice("ab")} for _ in range(k)], rnd.choice([0, 1, 2, 4])
+        yield [{"ts": rnd.randrange(0, 5), "dur": rnd.choice([-1, 0, 0, 1, 2, 3]), "d": rnd.choice("aabc")} for _ in range(k)], rnd.choice([0, 1, 2, 4])
 
 
 def all_lists(maxlen):
